@@ -469,6 +469,9 @@ func StrClass(s string) string {
 	t := strings.TrimFunc(s, isXMLSpace)
 	num := !math.IsNaN(StringToNumber(s))
 	_, perr := strconv.ParseFloat(strings.TrimSpace(s), 64)
+	if ne, ok := perr.(*strconv.NumError); ok && ne.Err == strconv.ErrRange {
+		perr = nil // Go float syntax, merely out of range
+	}
 	switch {
 	case ws:
 		return "xml-ws-only"
